@@ -332,8 +332,7 @@ def make_descs(tier, seed, which, alt=False):
     bs_procs = []
     if not alt:
         proc = alt_start(tier, seed, which)
-        if which == "susp":
-            bs_procs = bs_start(tier, seed)
+        bs_procs = bs_start(tier, seed)
         yield {"_kind": "live", "which": which, "tier": tier, "seed": seed}
     for d in descs:
         yield dict(d, _kind="cert", which=which)
